@@ -12,7 +12,7 @@ def run(tier):
         design_cfgs=[("MC_Client_route.cfg", ["FeAlloc", "FeEnqueue", "FeObserve", "StStep", "RtRecv"],
                       "3 concurrent calls; the peer answers seen and foreign ids in any order with duplicates and omissions; all interleavings")],
         asis=[("MC_Client_asis_F10.cfg", "Inv_IdsUnique", "batch ids overlap later ids when the counter advances by one (F10)")],
-        groups=["route", "mixed"], nscen=n)
+        groups=["route", "mixed", "batch"], nscen=n)
     rep.cov["rule"] = ("design: every interleaving of front ends, send task, read task and an adversarial peer for 3 calls / 4 peer texts; "
                        "conformance: seeded random scenarios (calls, subscribes, batches; peer answers to seen / foreign / repeated ids, "
                        "numeric and string ids, singly and in arrays; faults) recorded from the real client and validated event by event: "
